@@ -8,6 +8,11 @@ namespace Petl.Snapshot
 open Petl.Gen
 
 def expectedC19 : List (String × String) := [
+  ("file:comparison.py", "17971f67ee946013"),
+  ("file:config.py", "142bde514c82c29d"),
+  ("file:transform/conversions.py", "c717da0d8eb0ba94"),
+  ("file:transform/maps.py", "e13eb9e40cc9aa94"),
+  ("file:util/base.py", "771a68108eeb730d"),
   ("transform.conversions.FieldConvertView", "b1346e6539cc1ac2"),
   ("transform.conversions.iterfieldconvert", "ee107c581a77cc3a"),
   ("transform.maps.FieldMapView", "25107991aea0e6ce"),
